@@ -174,14 +174,12 @@ theorem enter_S {s : State} {r : Nat} (h : InvS s) (ha : alive s r = true) (rest
 
 /-- `cabinet.free`, then `resume(join_token)` -/
 theorem leave_S {s : State} {r : Nat} (h : InvS s) (hlt : r < s.n) (hd : (s.R r).state = .dead) :
-    InvS (match (freeRoutine s r |>.R r).joiner with
-          | some j => (resume (freeRoutine s r) j).1
-          | none => freeRoutine s r) := by
+    InvS (resumeOpt (freeRoutine s r) (freeRoutine s r |>.R r).joiner) := by
   have hj : (freeRoutine s r |>.R r).joiner = (s.R r).joiner := by simp [freeRoutine, State.R, State.setR]
   rw [hj]
   cases hjn : (s.R r).joiner with
   | none =>
-    simp only []
+    simp only [resumeOpt]
     constructor
     · exact h.fixed
     · exact h.chAvail
@@ -198,7 +196,7 @@ theorem leave_S {s : State} {r : Nat} (h : InvS s) (hlt : r < s.n) (hd : (s.R r)
     · intro x hf; have := h.outside x; crunch
     · intro x hf; have := h.ready x; crunch
   | some j =>
-    simp only []
+    simp only [resumeOpt]
     have w := Woke.resume (freeRoutine s r) j
     have F := w.fields
     constructor
@@ -257,13 +255,11 @@ theorem leave_S {s : State} {r : Nat} (h : InvS s) (hlt : r < s.n) (hd : (s.R r)
       · simp [q]
 
 theorem leave_L {s : State} {r : Nat} (h : InvL s) :
-    InvL (match (freeRoutine s r |>.R r).joiner with
-          | some j => (resume (freeRoutine s r) j).1
-          | none => freeRoutine s r) := by
+    InvL (resumeOpt (freeRoutine s r) (freeRoutine s r |>.R r).joiner) := by
   have h1 : InvL (freeRoutine s r) := h.of_eq rfl rfl rfl rfl
-  split
-  · exact (Woke.resume _ _).invL h1
-  · exact h1
+  cases (freeRoutine s r |>.R r).joiner with
+  | none => exact h1
+  | some j => exact (Woke.resume _ _).invL h1
 
 /-- body of `switchToRoutine` after the routine was marked running -/
 theorem switchTo_inv {s : State} {r : Nat} (s0 : State)
@@ -337,7 +333,7 @@ theorem switchTo_tmp (s : State) (r : Nat) : (switchTo s r).tmp = s.tmp := by
   unfold switchTo
   simp only []
   split
-  · split <;> simp [freeRoutine, runOps_tmp]
+  · simp [freeRoutine, runOps_tmp]
   · simp [runOps_tmp]
 
 theorem drain_inv (q : List Nat) {s : State} (h : Inv s) (ht : s.tmp = q) : Inv (drain q s) := by
